@@ -6,6 +6,7 @@
 //   ctx                 print every field of YR_SCAN_CONTEXT that outlives a scan, canonicalised
 //   hcb                 install the wrapping callback on the current scanner: script action 3 = sleep 1.1 s, continue
 //   lasterr             yr_scanner_last_error_string / rule identifiers
+//   hblocks start|resume  scan the block list (blocks/notready of h_scan) with an iterator that survives the call
 #define main hscan_main
 #define run_case hscan_run_case
 #include "h_scan.c"
@@ -113,6 +114,39 @@ static void hist_cmd(HS* s, char* line)
     fprintf(o, " rc=%d\n", rc);
     free(b);
     free(pat);
+  }
+  else if (!strcmp(c, "blocks"))
+  {
+    // h_scan's "blocks" overwrites the previous list: release it first (the ASan runs count leaks)
+    for (int i = 0; i < s->nblk; i++) { free(s->blk_data[i]); s->blk_data[i] = NULL; }
+    s->nblk = 0;
+    do_cmd(s, line);
+  }
+  else if (!strcmp(c, "hblocks"))
+  {
+    // hblocks start | resume : yr_scanner_scan_mem_blocks with ONE iterator object kept across calls, so
+    // that a call after ERROR_BLOCK_NOT_READY is a resumption (h_scan's scanblocks builds a new iterator)
+    static YR_MEMORY_BLOCK_ITERATOR it;
+    static int last_rc = 0;
+    if (strcmp(tok(&p), "start") != 0)
+    {
+      // a resumption makes sense only after ERROR_BLOCK_NOT_READY (the scan may have ended otherwise, e.g. timed out)
+      if (last_rc != ERROR_BLOCK_NOT_READY) { fprintf(o, "scan skipped\n"); free(copy); return; }
+    }
+    else
+    {
+      it.context = s;
+      it.first = it_first;
+      it.next = it_next;
+      it.file_size = s->fsz_known ? it_fsize : NULL;
+      it.last_error = ERROR_SUCCESS;
+      s->blk.fetch_data = it_fetch;
+      s->msg_index = 0;
+    }
+    fprintf(o, "scan msgs=");
+    int rc = yr_scanner_scan_mem_blocks(s->scanner[s->cur], &it);
+    last_rc = rc;
+    fprintf(o, " rc=%d\n", rc);
   }
   else if (!strcmp(c, "lasterr"))
   {
